@@ -609,9 +609,10 @@ class BGP(protocol.Protocol):
 
         """Negotiates the hold time"""
 
-        self.fsm.hold_time = min(self.fsm.hold_time, hold_time)
-        if self.fsm.hold_time != 0 and self.fsm.hold_time < 3:
+        if hold_time != 0 and hold_time < 3:
+            # RFC 4271 4.2: a proposed Hold Time of one or two seconds must be rejected
             self.fsm.open_message_error(bgp_cons.ERR_MSG_OPEN_UNACCPT_HOLD_TIME)
+        self.fsm.hold_time = min(self.fsm.hold_time, hold_time)
             # Derived times
         self.fsm.keep_alive_time = self.fsm.hold_time / 3
         LOG.info(
